@@ -723,7 +723,37 @@ def replay_scenario(payload):
             "ref_outcome": str(outcome_repr(*ro)) if ro[0] in ("return", "raise") else ro[0]}
 
 
+def enumerate_contextmanager():
+    """bounded native stand-in for C13: every combination of generator behaviour (answer to the first anext, answer to
+    athrow/aclose/second anext) and block outcome, real asyncstdlib.contextmanager against contextlib.asynccontextmanager"""
+    outcomes = ["none", "UserError", "UserBaseError", "StopIteration", "StopAsyncIteration", "RuntimeError", "GeneratorExit", "KeyboardInterrupt"]
+    firsts = ["yield", "stop", "raise"]
+    seconds = ["stop", "raise-same", "raise-new", "raise-rt-cause", "raise-same-type", "yield", "raise", "raise-ignored", "ok"]
+    bad = []
+    cases = 0
+    for oc in outcomes:
+        for f in firsts:
+            for sec in seconds:
+                if oc == "GeneratorExit" and f != "yield":
+                    continue        # a failing enter does not depend on the block outcome (covered by the other outcomes)
+                payload = {"job": f"contextmanager[{oc}]", "scenario": {"trace": [["gen first", f], ["gen second", sec]]}}
+                try:
+                    r = replay_contextmanager(payload)
+                except BaseException as e:      # noqa: BLE001
+                    r = {"confirmed": True, "differences": [f"harness failure {e!r}"]}
+                cases += 1
+                if r["confirmed"] and len(bad) < 6:
+                    bad.append(f"block outcome {oc}, generator answers ({f}, {sec}): {r['differences'][0][:400]}")
+    return {"cases": cases, "violations": bad,
+            "bound": "3 answers to the first anext x 9 answers to the closing athrow/aclose/anext x 8 block outcomes (the whole abstract domain of the C13 jobs, natively)"}
+
+
 def main():
+    if "--enumerate-contextmanager" in sys.argv:
+        import warnings
+        warnings.simplefilter("ignore")
+        print(json.dumps(enumerate_contextmanager(), default=str))
+        sys.exit(0)
     if "--scenario" in sys.argv:
         payload = json.load(sys.stdin)
         sys.path.insert(0, payload.get("repo", "/repo"))
